@@ -22,11 +22,11 @@ Matched ==
           \/ (Ev.op = "write" /\ wk[w].a = Ev.a /\ wk[w].s = Ev.s /\
                 ((wk[w].pc = "write" /\ Locked /\ Write(w)) \/ (wk[w].pc = "write2" /\ Write2(w))))
           \/ (Ev.op = "assetend" /\ wk[w].a = Ev.a /\
-                ((wk[w].pc = "aend" /\ Locked /\ AssetEnd(w)) \/ (wk[w].pc = "aend2" /\ AssetEnd2(w))))
+                ((wk[w].pc = "aend" /\ Locked /\ ~TwoSectionEnd /\ AssetEnd(w)) \/ (wk[w].pc = "aend2" /\ AssetEnd2(w))))
   /\ l' = l + 1
 
 Silent ==
-  /\ \E w \in Workers : Take(w) \/ GetSince(w) \/ (~Locked /\ wk[w].pc = "write" /\ Write(w)) \/ (~Locked /\ wk[w].pc = "aend" /\ AssetEnd(w))
+  /\ \E w \in Workers : Take(w) \/ GetSince(w) \/ (~Locked /\ wk[w].pc = "write" /\ Write(w)) \/ ((~Locked \/ TwoSectionEnd) /\ wk[w].pc = "aend" /\ AssetEnd(w))
   /\ UNCHANGED l
 
 TraceNext == Matched \/ Silent
